@@ -3,6 +3,7 @@ package zzvrt
 import (
 	"fmt"
 	"hash/fnv"
+	"os"
 	"time"
 )
 
@@ -132,12 +133,20 @@ func children(x *Exec, plen int, b Bounds) [][]int {
 	return out
 }
 
+// Post-publication scheduling points (see PostPoint) are on for every scenario: they only add schedules
+// that a real preemption right after an atomic operation produces. VERIF_POSTPUBLISH=0 turns them off
+// (to compare state-space sizes), leaving them to scenarios that ask for them in their RunOpts.
+var forcePostPublish = os.Getenv("VERIF_POSTPUBLISH") != "0"
+
 func (e *Explorer) runOne(prefix []int, trace bool) (*Exec, string, []Violation) {
 	if e.S.Before != nil {
 		e.S.Before()
 	}
 	o := e.S.Opts
 	o.Trace = trace
+	if forcePostPublish {
+		o.PostPublish = true
+	}
 	x := Run(e.S.Body, prefix, o)
 	obs, v := e.S.Check(x)
 	return x, obs, v
@@ -203,6 +212,9 @@ func (e *Explorer) Explore() {
 	st := &e.Stats
 	st.Scenario = e.S.Name
 	st.Bounds = e.S.Opts.Bounds.String()
+	if e.S.Opts.PostPublish || forcePostPublish {
+		st.Bounds += " +post-publish points"
+	}
 	st.Outcomes = map[string]int64{}
 	st.obs = map[uint64]struct{}{}
 	if e.MaxFound == 0 {
